@@ -43,6 +43,7 @@ type job struct {
 	idx    int
 	h      *History
 	deep   *deepCase
+	amp    bool
 }
 
 type deepCase struct {
@@ -282,19 +283,22 @@ type streamStats struct {
 }
 
 type agg struct {
-	mu        sync.Mutex
-	res       *lib.Result
-	distinct  *lib.Distinct
-	nontriv   *lib.Distinct
-	streams   [5]streamStats
-	ops       map[string]int64
-	whyFuzz   map[string]int64
-	errClass  map[string]int64
-	crashSeen map[string]int // de-duplicate reported crashes by site
-	driverBad int64
-	maxMicros int64
-	deepNotes []string
-	samples   int
+	mu         sync.Mutex
+	res        *lib.Result
+	distinct   *lib.Distinct
+	nontriv    *lib.Distinct
+	streams    [5]streamStats
+	ops        map[string]int64
+	whyFuzz    map[string]int64
+	errClass   map[string]int64
+	crashSeen  map[string]int // de-duplicate reported crashes by site
+	driverBad  int64
+	maxMicros  int64
+	maxPeakMiB int
+	maxCPUms   int64
+	deepNotes  []string
+	ampNotes   []string
+	samples    int
 }
 
 func main() {
@@ -435,6 +439,11 @@ func main() {
 		h := newHistory(streamNames[streamDeep], fmt.Sprintf("%d lexical errors in one file", n), []string{"errs.yang"}, []string{manyErrors(r, n)})
 		jobs = append(jobs, job{stream: streamDeep, idx: n, h: &h})
 	}
+	// amplifiers: k levels, each referring to the previous one b times, for every kind of reference
+	for i, h := range amplifierHistories() {
+		h := h
+		jobs = append(jobs, job{stream: streamDeep, idx: 2000000 + i, h: &h, amp: true})
+	}
 	// the lexer's error limit: 7–10 invalid escapes in each layout, then each kind of lexer construct
 	for n := 7; n <= 10; n++ {
 		for layout := 0; layout < 4; layout++ {
@@ -453,6 +462,15 @@ func main() {
 		jobs = append(jobs, job{stream: streamBytes, idx: i})
 	}
 
+	if only := os.Getenv("VERIF_C01_ONLY"); only == "amp" {
+		var keep []job
+		for _, j := range jobs {
+			if j.amp {
+				keep = append(keep, j)
+			}
+		}
+		jobs = keep
+	}
 	// ---- run
 	var next int64 = -1
 	var wg sync.WaitGroup
@@ -514,8 +532,12 @@ func main() {
 	res.Distribution["go_error_classes(process)"] = a.errClass
 	res.Distribution["lean_driver_failures"] = a.driverBad
 	res.Distribution["max_go_time_ms_of_one_history"] = a.maxMicros / 1000
+	res.Distribution["max_cpu_ms_of_one_history"] = a.maxCPUms
+	res.Distribution["max_memory_held_mib_of_one_history"] = a.maxPeakMiB
 	sort.Strings(a.deepNotes)
 	res.Notes = append(res.Notes, a.deepNotes...)
+	sort.Strings(a.ampNotes)
+	res.Distribution["amplifier_cases"] = a.ampNotes
 	res.Notes = append(res.Notes,
 		"super-linear families are capped (polynomial time is bounded time; the bound only tells a hang from slow progress): chain of groupings / typedefs 1000, "+
 			"chain of identities 600 (resolveIdentities is about O(n^4) on a base chain, identity.go addChildren: 0.3 s at 300, 1.6 s at 600, 10 s at 1000, 132 s at 2000 "+
@@ -635,6 +657,10 @@ func (a *agg) evaluate(f *lib.Flags, d *driver, j job, h *History, v *Verdict, o
 		switch {
 		case !allParse:
 			why = "a text does not pass the generic parser"
+		case j.amp:
+			// the compiled model mirrors the loops of the Go code on lists; the amplifiers are about the
+			// resources the Go side takes
+			why = "amplifier case (the model is not asked)"
 		case j.deep != nil && j.deep.depth > 200:
 			// the compiled model mirrors the polynomial-time loops of the Go code on lists (the identity
 			// closure takes 38 s at a chain of 400): the depth cases are about the Go side surviving
@@ -704,8 +730,13 @@ func (a *agg) evaluate(f *lib.Flags, d *driver, j job, h *History, v *Verdict, o
 		// every crash of the corpus is reported; of the generated streams at most 3 per site
 		if j.stream == streamCorpus || a.crashSeen[sig] <= 3 {
 			kind := "crash"
-			if v.Kind == "infrastructure" {
+			switch v.Kind {
+			case "infrastructure":
 				kind = "obligation"
+			case "resource":
+				kind = "resource"
+			case "timeout":
+				kind = "hang"
 			}
 			a.res.Disagreements = append(a.res.Disagreements, lib.Disagreement{Kind: kind, Input: inputSummary(h),
 				Go: short(v.Msg, 3000), SpecVerdict: "violates", Known: knownTag(h, v),
@@ -742,9 +773,19 @@ func (a *agg) evaluate(f *lib.Flags, d *driver, j job, h *History, v *Verdict, o
 	if v.Rep.Micros > a.maxMicros {
 		a.maxMicros = v.Rep.Micros
 	}
+	if v.Rep.PeakMiB > a.maxPeakMiB {
+		a.maxPeakMiB = v.Rep.PeakMiB
+	}
+	if v.Rep.CPUms > a.maxCPUms {
+		a.maxCPUms = v.Rep.CPUms
+	}
 	if j.deep != nil {
-		a.deepNotes = append(a.deepNotes, fmt.Sprintf("depth case %d (%s) depth %6d: %7d bytes, goyang time %8.1f ms (bound %v), parsed=%v accepted=%v process errors=%d entries walked=%d",
-			j.deep.kind, deepKindNames[j.deep.kind], j.deep.depth, h.Bytes(), float64(v.Rep.Micros)/1000, bound(h), v.Rep.Parsed, v.Rep.Accepted, v.Rep.NErrs, v.Rep.Nodes))
+		a.deepNotes = append(a.deepNotes, fmt.Sprintf("depth case %d (%s) depth %6d: %7d bytes, goyang time %8.1f ms (bound %v), cpu %d ms, memory %d MiB, parsed=%v accepted=%v process errors=%d entries walked=%d",
+			j.deep.kind, deepKindNames[j.deep.kind], j.deep.depth, h.Bytes(), float64(v.Rep.Micros)/1000, bound(h), v.Rep.CPUms, v.Rep.PeakMiB, v.Rep.Parsed, v.Rep.Accepted, v.Rep.NErrs, v.Rep.Nodes))
+	}
+	if j.amp {
+		a.ampNotes = append(a.ampNotes, fmt.Sprintf("%s: %d bytes in %d text(s), cpu %d ms, memory %d MiB, process errors=%d, entries walked=%d",
+			h.What, h.Bytes(), len(h.Names), v.Rep.CPUms, v.Rep.PeakMiB, v.Rep.NErrs, v.Rep.Nodes))
 	}
 	for _, n := range v.Rep.Notes {
 		// an entry object reachable twice through Dir / RPC is a sharing defect (C04/C06), reported there; here it is only counted
